@@ -7,6 +7,9 @@ correspondence of the model table with the real `_sg_lookup_table` and of getSG/
 GetSpaceGroup/IsSpaceGroupIdentifier/FindSpaceGroup on identifier variants and operation lists.
 Oracle: "the returned setting carries the identifier" / "has exactly that operation set" evaluated on
 the real objects.
+Source tie: translate/src_lookup.py transliterates GetSpaceGroup, IsSpaceGroupIdentifier, _buildSGLookupTable,
+_hashSymOpList, _getSGHashLookupTable, FindSpaceGroup, check_group_name from the current source; DS.Props.SrcLookup
+proves them equal to getSG / buildTable / canon / findSG / sameOrder (all inputs).  A broken tie widens the search.
 """
 import binascii
 import json
@@ -58,7 +61,25 @@ def carries(sg, ident, aliases):
     return False
 
 
-def variants(ck, name):
+# theorems of DS.Props.SrcLookup that concern only the build protocol of the two dictionaries (C19)
+TIE_C19_ONLY = {"id_protocol", "hash_protocol", "id_reader", "hash_reader", "reader_candidates", "no_other_users", "facts_eq",
+                "protocol_agrees", "id_table_linearizable_src", "hash_table_linearizable_src", "never_partial_src",
+                "candidateKeys_length"}
+
+
+def tie_relevant(ck, tie_ok, tie_info, irrelevant):
+    """a tie broken only in theorems that concern the other property is not this property's business"""
+    if tie_ok:
+        return True
+    broken = set(tie_info.get("broken_theorems") or [])
+    if broken and broken <= irrelevant and not (tie_info.get("translator") or {}).get("error") \
+            and set(tie_info.get("failed_modules") or []) <= {"DS.Props.SrcLookup"}:
+        ck.notes.append("source tie: only theorems of the other property are broken (%s)" % ", ".join(sorted(broken)))
+        return True
+    return False
+
+
+def variants(ck, name, wide=False):
     out = {name, name.lower(), name.upper(), "  " + name + " \t", name.swapcase(),
            "  " + name + " ", " " + name.lower(), name.upper() + "   "}      # blank padding only (documented spacing)
     if " " not in name.strip():
@@ -71,6 +92,16 @@ def variants(ck, name):
         out.add(" ".join(name))
     else:
         out.add(name.replace(" ", ""))
+    if wide:
+        # broken source tie: more spellings of the documented kinds (single/double blanks at random places of a short
+        # symbol, random letter case, first letter lower / rest upper, padding on one side only)
+        for _ in range(4):
+            chars = [c.upper() if ck.rng.random() < 0.5 else c.lower() for c in name]
+            if " " not in name.strip():
+                for _ in range(ck.rng.randrange(1, 4)):
+                    chars.insert(ck.rng.randrange(len(chars) + 1), ck.rng.choice([" ", "  "]))
+            out.add("".join(chars))
+        out |= {name[:1].lower() + name[1:].upper(), name + " ", " " + name, name.title()}
     return out
 
 
@@ -89,6 +120,18 @@ def run(ck):
     rep = tables.main(gen, os.path.join(gen, "tables_report.json"))
     info = tl.main(gen, os.path.join(gen, "lookup_report.json"))
     ok, info_l = ck.lean_obligations("DS.Props.C11")
+    # source tie: the functions themselves, transliterated from the current source, are the model (DS.Props.SrcLookup);
+    # Gen/Protocol.lean (imported by that module for its C19 part) is refreshed first so that it is not a stale
+    # extraction from another tree
+    from translate import protocol as tproto
+    tproto.main(gen, common.REPO)
+    cmd = ck.coverage["checker_cmd"]
+    tie_ok, tie_info = ck.source_tie("DS.Props.SrcLookup", groups=("lookup",))
+    ck.coverage["checker_cmd"] = cmd + "; source tie: lake build DS.Props.SrcLookup"
+    tie_ok = tie_relevant(ck, tie_ok, tie_info, TIE_C19_ONLY)
+    wide = not tie_ok
+    if wide:
+        ck.notes.append("source tie broken (%s): search widened" % ", ".join(tie_info.get("broken_theorems") or tie_info.get("failed_modules") or ["translator"]))
     import diffpy.structure.spacegroups as S
     from diffpy.structure.parsers.p_cif import getSymOp
     from diffpy.structure.spacegroups import FindSpaceGroup, GetSpaceGroup, IsSpaceGroupIdentifier, SymOp
@@ -118,7 +161,7 @@ def run(ck):
         base = [g.number, str(g.number), g.short_name, g.pdb_name]
         ids = set(base)
         for nm in (g.short_name, g.pdb_name):
-            ids |= variants(ck, nm)
+            ids |= variants(ck, nm, wide)
         ids.add(" %d " % g.number)
         ids.add("%d.0" % g.number)
         ids.add(g.number + 100000)
@@ -158,6 +201,12 @@ def run(ck):
         ck.rng.shuffle(sh)
         oplists.append(("same", i, ops))
         oplists.append(("shuffled", i, sh))
+        if wide and len(ops) > 1:
+            oplists.append(("shuffled", i, ops[::-1]))
+            oplists.append(("shuffled", i, ops[1:] + ops[:1]))
+            sh2 = ops[:]
+            ck.rng.shuffle(sh2)
+            oplists.append(("shuffled", i, sh2))
         if len(ops) > 1:
             j = ck.rng.randrange(len(ops))
             oplists.append(("sublist", i, ops[:j] + ops[j + 1:]))
@@ -346,7 +395,9 @@ def run(ck):
     ck.assumptions += ["Python's hash() of the fingerprint tuples is collision free on the tabulated settings (the code asserts it); the model compares fingerprints directly",
                        "str(SymOp) is modelled by the packed integer key; the translator checks on every run that both induce the same equality on all tabulated operations",
                        "'any spacing' is what GetSpaceGroup implements: arbitrary blanks for short symbols, outer blanks for full symbols"]
-    ck.coverage["trusted_base"] += ["translate/tables.py", "translate/lookup.py (alias list and registration order via ast)"]
+    ck.coverage["trusted_base"] += ["translate/tables.py", "translate/lookup.py (alias list and registration order via ast)",
+                                    "translate/src_lookup.py (ast transliteration of the lookup functions; Python string/dict primitives as defined in its prelude)"]
+    ck.tie_verdict(tie_ok, tie_info, "spacegroups.py lookup functions (GetSpaceGroup, _buildSGLookupTable, FindSpaceGroup, ...)")
     if not ok and not ck.violations:
         ck.fail("lean-build", "Lean obligations of C11 no longer check: %r" % info_l["failed_modules"],
                 {"kind": "proof-obligation", "theorem": info_l["failed_modules"], "errors": info_l["errors"]}, no_failing_input=True)
@@ -362,6 +413,8 @@ def mutate_after_lookup(ck, g, tabulated, FindSpaceGroup, SymOp, edit=None):
         first = FindSpaceGroup(ops)
     except ValueError:
         return ("the unedited copy of the tabulated list is not found", None)
+    except Exception as e:  # noqa: BLE001  (e.g. the collision assertion of the fingerprint table)
+        return ("FindSpaceGroup raised %r on an unedited copy of the tabulated list" % (e,), None)
     if edit is None:
         j = ck.rng.randrange(len(ops))
         ax = ck.rng.randrange(3)
@@ -375,6 +428,8 @@ def mutate_after_lookup(ck, g, tabulated, FindSpaceGroup, SymOp, edit=None):
         got = FindSpaceGroup(ops).number
     except ValueError:
         got = None
+    except Exception as e:  # noqa: BLE001
+        return ("FindSpaceGroup raised %r on the edited list" % (e,), edit)
     expn = None if exp is None else exp
     if (got is None) != (expn is None):
         return ("edited list %s, FindSpaceGroup %s" % ("is not tabulated" if expn is None else "is a tabulated set",
@@ -440,6 +495,24 @@ def xyz_text(o, style=0):
         else:
             rows.append(body + "%+d/%d" % (t.numerator, t.denominator))
     return (" , " if style == 3 else ",").join(rows)
+
+
+def replay_tie():
+    """re-decide the source tie on the tree under examination: regenerate the transliteration, re-check the theorems"""
+    from translate import lookup as tl
+    from translate import protocol as tproto
+    from translate import pysrc
+
+    gen = os.path.join(common.LEAN, "DS", "Gen")
+    tl.main(gen, os.path.join(gen, "lookup_report.json"))
+    tproto.main(gen, common.REPO)
+    pysrc.REPO = common.REPO
+    with common.LeanLock():
+        rep = pysrc.main(groups=("lookup",))
+    okb, log, failed = common.lake_build(["DS.Props.SrcLookup"])
+    print("untranslatable:", rep.get("lookup", {}).get("untranslatable"))
+    print("lake build DS.Props.SrcLookup:", "ok" if okb else "FAILED %r" % [e[1:] for e in common.lean_errors(log)[:8]])
+    return 0 if okb else 1
 
 
 def replay(path):
@@ -520,6 +593,8 @@ def replay(path):
             print("getSymOp raised", repr(e))
             return 1
         return 0
+    if r.get("kind") == "source-tie":
+        return replay_tie()
     if "identifier" not in r:
         print("replay names a proof obligation / correspondence stream, nothing to execute:", r.get("theorem"))
         return 1
